@@ -46,7 +46,7 @@ def gen_case(rng: random.Random):
              hb_slope=round(rng.uniform(0.3, 3.0), 3) if shape in ("heating", "both") else 0.0,
              cb_slope=round(rng.uniform(0.3, 3.0), 3) if shape in ("cooling", "both") else 0.0)
     for _ in range(50):
-        w = dict(mean=round(rng.uniform(52, 68), 2), amp=round(rng.uniform(18, 26), 2), noise=round(rng.uniform(3, 7), 2))
+        w = dict(mean=round(rng.uniform(44, 74), 2), amp=round(rng.uniform(12, 26), 2), noise=round(rng.uniform(3, 8), 2))
         seed = rng.randrange(1 << 20)
         T = weather(2018, "UTC", seed, **w).values
         T2 = weather(2019, "UTC", seed + 1, **w).values
@@ -72,6 +72,21 @@ def fit_and_measure(case):
         p1 = m.predict(base, ignore_disqualification=True)
         p2 = m.predict(DailyReportingData(pd.DataFrame({"temperature": T2}), is_electricity_data=True), ignore_disqualification=True)
     out = dict(model_types={str(k): v.coefficients.model_type.value for k, v in m.params.submodels.items()})
+    # per component of the chosen split: is each ACTIVE true balance point inside the component's optimiser box
+    # [T_min_seg, T_max_seg] (the segment_minimum_count-th coldest / hottest day of that component)?
+    nseg = int(m.settings.segment_minimum_count)
+    comps = []
+    for key in m.params.submodels:
+        Tc = p1.loc[p1["model_split"] == key, "temperature"].to_numpy(dtype=float)
+        Tc = Tc[np.isfinite(Tc)]
+        if len(Tc) > 2 * nseg:
+            lo, hi = float(np.partition(Tc, nseg)[nseg]), float(np.partition(Tc, -nseg)[-nseg])
+        else:
+            lo, hi = float("nan"), float("nan")
+        outside = [name for name, bp, slope in (("heating", p["hbp"], p["hb_slope"]), ("cooling", p["cbp"], p["cb_slope"]))
+                   if slope and not (lo <= bp <= hi) and bool(np.any(Tc < bp) if name == "heating" else np.any(Tc > bp))]
+        comps.append(dict(component=str(key), days=int(len(Tc)), box=[lo, hi], true_balance_point_outside_box=outside))
+    out["components"] = comps
     for name, pr, g in (("baseline", p1, g1), ("other_year", p2, g2)):
         f = pr["predicted"].to_numpy(dtype=float)
         out[f"nrmse_{name}"] = float(np.sqrt(np.mean((f - g) ** 2)) / np.mean(g))
@@ -82,9 +97,18 @@ def fit_and_measure(case):
     out["sse_fit"] = float(np.sum((obs - f1) ** 2))
     out["sse_truth"] = float(np.sum((obs - g1) ** 2))
     out["hypothesis_fit_explains_data_as_well_as_truth"] = bool(out["sse_fit"] <= out["sse_truth"] * (1 + 1e-9) + 1e-12)
+    out["n_days"] = int(len(g1))
     out["rms_fit_minus_truth"] = float(np.sqrt(np.mean((f1 - g1) ** 2)))
     out["two_rms_noise"] = float(2 * np.sqrt(np.mean((obs - g1) ** 2)))
     return out
+
+
+def explain(case, r):
+    """C15-F1: the chosen split has a component in which a true, active balance point lies outside the optimiser's box (fewer than
+    segment_minimum_count days of that component lie beyond it) — that component cannot represent the generator."""
+    if any(c["true_balance_point_outside_box"] for c in r.get("components", [])):
+        return "C15-F1"
+    return None
 
 
 def judge(case, r):
@@ -99,7 +123,10 @@ def judge(case, r):
         if r[f"phantom_cooling_{name}"] > 0.05:
             fails.append((f"no_phantom_cooling_{name}", dict(share=r[f"phantom_cooling_{name}"], model_types=r["model_types"])))
     # the theorem, on the real numbers: whenever its hypothesis holds its conclusion must
-    if r["hypothesis_fit_explains_data_as_well_as_truth"] and r["rms_fit_minus_truth"] > r["two_rms_noise"] * (1 + 1e-9) + 1e-9:
+    # the hypothesis is evaluated with a slack delta on the SSE; the triangle inequality then gives 2*rms(noise) + sqrt(delta/n)
+    delta = 1e-9 * r["sse_truth"] + 1e-12
+    if r["hypothesis_fit_explains_data_as_well_as_truth"] and \
+            r["rms_fit_minus_truth"] > (r["two_rms_noise"] + math.sqrt(delta / max(1, r.get("n_days", 365)))) * (1 + 1e-9) + 1e-9:
         fails.append(("theorem_C15_near_minimiser_recovers_on_real_numbers", dict(rms=r["rms_fit_minus_truth"], bound=r["two_rms_noise"])))
     return fails
 
@@ -191,7 +218,15 @@ def run(ctx):
             res["hist"].get("hypothesis_holds" if r["hypothesis_fit_explains_data_as_well_as_truth"] else "hypothesis_fails", 0) + 1
         sigs.add((case["shape"], case["profile"], tuple(sorted(set(r["model_types"].values())))))
         fails = judge(case, r)
-        if fails:
+        fid = explain(case, r) if fails and all(c.startswith(("nrmse_", "no_phantom_")) for c, _ in fails) else None
+        if any(c["true_balance_point_outside_box"] for c in r.get("components", [])):
+            res["hist"]["split_component_with_true_bp_outside_its_box"] = res["hist"].get("split_component_with_true_bp_outside_its_box", 0) + 1
+        if fid:
+            d = res["finding_instances"].setdefault(fid, dict(count=0, example=None))
+            d["count"] += 1
+            d["example"] = d["example"] or dict(case=case, clause=fails[0][0], detail=fails[0][1],
+                                                components=[c for c in r["components"] if c["true_balance_point_outside_box"]])
+        elif fails:
             res["oracle_failures"].append(dict(case=case, clause=fails[0][0], detail=fails[0][1], measured=r, n_clauses_failed=len(fails)))
         if len(res["samples"]) < 4:
             res["samples"].append(dict(case=case, measured=r))
@@ -205,7 +240,7 @@ def run(ctx):
 
 def replay_finding(entry):
     r = fit_and_measure(entry["witness"]["case"])
-    return bool(judge(entry["witness"]["case"], r))
+    return bool(judge(entry["witness"]["case"], r)) and explain(entry["witness"]["case"], r) == entry["id"]
 
 
 def replay(obj):
